@@ -1,6 +1,14 @@
 package props
 
 import (
+	"golang.org/x/crypto/hkdf"
+	"golang.org/x/crypto/chacha20poly1305"
+	"io"
+	"hash"
+	"encoding/hex"
+	"crypto/sha512"
+	"crypto/sha256"
+	"bytes"
 	stdtls "crypto/tls"
 	"crypto/cipher"
 	"crypto/aes"
@@ -377,7 +385,7 @@ func c26Scenarios(thorough bool) []*explore.Scenario {
 	if os.Getenv("C26_BOUND") != "" {
 		fmt.Sscan(os.Getenv("C26_BOUND"), &b)
 	}
-	return []*explore.Scenario{c26HandshakeCancel(b, false), c26DataPhase(b), c26WriteVsHandshake(b), c26Renegotiation(b)}
+	return []*explore.Scenario{c26HandshakeCancel(b, false), c26DataPhase(b), c26WriteVsHandshake(b), c26Renegotiation(b), c26KeyUpdate(b)}
 }
 
 func init() {
@@ -386,7 +394,7 @@ func init() {
 			return []*explore.Scenario{c26HandshakeCancel(0, true), c26DataPhase(0), c26WriteVsHandshake(0)}
 		},
 		Run: func(c *explore.Check, thorough bool) {
-			c.Rule = "four harnesses (D added in round 4: a HelloRequest handled inside Read at TLS 1.2 || Write || optional Close, 3 clients) on the real UConn under the controlled scheduler (sync, sync/atomic, channel, go and select of package tls redirected; conn Read/Write/Close and context cancellation are scheduling points; the standard library's crypto/tls server is the peer, run to quiescence; its output is delivered chunk by chunk by a scheduled network thread), clients {HelloGolang, HelloChrome_Auto, HelloChrome_58}: (A) HandshakeContext(ctx1) || {Handshake(), HandshakeContext(ctx2)+cancel2, -} || cancel1; (B) after an un-branched handshake Read || Write || {Close, CloseWrite, -, Close while the peer has stopped reading so that the transport write blocks}; (C) Write || Handshake || {Close, Read}. All schedules with <= 1 (2) preemptions and <= 1 (2) free switches, pruned by a happens-before state key. Oracle: no deadlock/livelock, no panic, every caller returns the shared outcome (nil iff HandshakeComplete) or its own context error with the connection closed, callers agree, late cancellation is inert (epilogue round trip), data read is a prefix of what was written, Write after Close fails. distinct = outcome class"
+			c.Rule = "five harnesses (D, round 4: a HelloRequest handled inside Read at TLS 1.2 || Write || optional Close, 3 clients; E, round 5: a TLS 1.3 KeyUpdate(update_requested), sealed by the harness from the peer's key log, answered from inside Read || Write: the peer must receive the writer's bytes intact) on the real UConn under the controlled scheduler (sync, sync/atomic, channel, go and select of package tls redirected; conn Read/Write/Close and context cancellation are scheduling points; the standard library's crypto/tls server is the peer, run to quiescence; its output is delivered chunk by chunk by a scheduled network thread), clients {HelloGolang, HelloChrome_Auto, HelloChrome_58}: (A) HandshakeContext(ctx1) || {Handshake(), HandshakeContext(ctx2)+cancel2, -} || cancel1; (B) after an un-branched handshake Read || Write || {Close, CloseWrite, -, Close while the peer has stopped reading so that the transport write blocks}; (C) Write || Handshake || {Close, Read}. All schedules with <= 1 (2) preemptions and <= 1 (2) free switches, pruned by a happens-before state key. Oracle: no deadlock/livelock, no panic, every caller returns the shared outcome (nil iff HandshakeComplete) or its own context error with the connection closed, callers agree, late cancellation is inert (epilogue round trip), data read is a prefix of what was written, Write after Close fails. distinct = outcome class"
 			c.Assumptions = []string{"scheduling points are the hooked synchronisation operations; unsynchronised accesses are only seen by the separate free-running -race pass", "the peer runs atomically between client writes (finer peer timing is represented by chunked delivery only)", "preemption-bounded: no violation with <= k preemptions is the claim"}
 			runAll(c, c26Scenarios(thorough), 0)
 			if c.ShardN == 0 {
@@ -505,6 +513,194 @@ func c26Renegotiation(preempt int) *explore.Scenario {
 				r.Count("renegotiation_hello_sent", 1)
 			}
 			r.Obs = fmt.Sprintf("r=%s|w=%s|dl=%v", errClass(rdErr), errClass(wrErr), out.Deadlock)
+			r.Class = what + "|" + r.Obs
+			return
+		},
+	}
+}
+
+// ---- harness E: a TLS 1.3 KeyUpdate(update_requested) handled inside Read while Write runs ----
+
+// tls13Label is HKDF-Expand-Label (RFC 8446 7.1) for SHA-256 / SHA-384 secrets.
+func tls13Label(h func() hash.Hash, secret []byte, label string, n int) []byte {
+	info := []byte{byte(n >> 8), byte(n), byte(6 + len(label))}
+	info = append(info, "tls13 "+label...)
+	info = append(info, 0)
+	out := make([]byte, n)
+	io.ReadFull(hkdf.Expand(h, secret, info), out)
+	return out
+}
+
+// tls13Record protects one TLS 1.3 record (inner content type typ) under a traffic secret at sequence number seq.
+func tls13Record(suite uint16, secret []byte, seq uint64, typ byte, msg []byte) []byte {
+	h, keyLen := sha256.New, 16
+	if suite == tls.TLS_AES_256_GCM_SHA384 {
+		h, keyLen = sha512.New384, 32
+	}
+	if suite == tls.TLS_CHACHA20_POLY1305_SHA256 {
+		keyLen = 32
+	}
+	key, iv := tls13Label(h, secret, "key", keyLen), tls13Label(h, secret, "iv", 12)
+	var aead cipher.AEAD
+	if suite == tls.TLS_CHACHA20_POLY1305_SHA256 {
+		aead, _ = chacha20poly1305.New(key)
+	} else {
+		b, _ := aes.NewCipher(key)
+		aead, _ = cipher.NewGCM(b)
+	}
+	nonce := append([]byte{}, iv...)
+	sb := seqBytes(seq)
+	for i := 0; i < 8; i++ {
+		nonce[4+i] ^= sb[i]
+	}
+	inner := append(append([]byte{}, msg...), typ)
+	hdr := []byte{23, 3, 3, byte((len(inner) + 16) >> 8), byte(len(inner) + 16)}
+	return append(hdr, aead.Seal(nil, nonce, inner, hdr)...)
+}
+
+func (k *keyLog) secret(label string) []byte {
+	for _, l := range strings.Split(k.String(), "\n") {
+		f := strings.Fields(l)
+		if len(f) == 3 && f[0] == label {
+			b, _ := hex.DecodeString(f[2])
+			return b
+		}
+	}
+	return nil
+}
+
+// c26KeyUpdate — H-E: after a TLS 1.3 handshake the server's first application-phase record is a
+// KeyUpdate requesting one back (sealed by the harness from the standard-library peer's key log:
+// that server never sends one by itself). The reader answers it from inside Read — it sends a
+// record and switches the write key — while a writer is sending data. In every schedule the peer
+// must be able to read what the client put on the wire: the bytes the writer wrote arrive intact.
+func c26KeyUpdate(preempt int) *explore.Scenario {
+	clients := c26Clients()
+	return &explore.Scenario{
+		Name:   "key-update-answered-inside-read-vs-writer",
+		Dedup:  true,
+		Budget: map[string]int{"preempt": preempt, "switch": preempt},
+		Run: func(x *explore.X) (r explore.Result) {
+			if sched.FreeRun {
+				r.Obs = "n/a-free-running"
+				return
+			}
+			cl := clients[x.Choose("client", len(clients))]
+			if cl.name == "HelloChrome_58" {
+				r.Obs = "no-tls13"
+				return
+			}
+			l := newSchedLink()
+			kl := &keyLog{}
+			scfg := stdServerConfig()
+			scfg.KeyLogWriter = kl
+			scfg.SessionTicketsDisabled = true
+			var smu sync.Mutex
+			var sink []byte
+			var srvErr error
+			srv := stdtls.Server(peerEnd{l}, scfg)
+			go func() {
+				defer func() {
+					recover()
+					l.mu.Lock()
+					l.peerDone = true
+					l.cond.Broadcast()
+					l.mu.Unlock()
+				}()
+				if err := srv.Handshake(); err != nil {
+					smu.Lock()
+					srvErr = err
+					smu.Unlock()
+					return
+				}
+				buf := make([]byte, 4096)
+				for {
+					n, err := srv.Read(buf)
+					smu.Lock()
+					sink = append(sink, buf[:n]...)
+					if err != nil {
+						srvErr = err
+					}
+					smu.Unlock()
+					if n > 0 {
+						srv.Write(buf[:n])
+					}
+					if err != nil {
+						return
+					}
+				}
+			}()
+			l.settle()
+			u := tls.UClient(clientEnd{l}, peer.ClientConfig("example.com"), cl.id)
+			var hmu sync.Mutex
+			var rdErr, wrErr, hsErr error
+			injected := false
+			msg := []byte("hello-from-writer-across-a-key-update")
+			out := sched.Run(x, sched.Options{Context: cl.name}, func() {
+				sched.GoNamed("net", true, l.network)
+				sched.SetBranching(false)
+				hsErr = u.Handshake()
+				sched.SetBranching(true)
+				if hsErr != nil {
+					return
+				}
+				cs := u.ConnectionState()
+				sec := kl.secret("SERVER_TRAFFIC_SECRET_0")
+				if cs.Version != tls.VersionTLS13 || sec == nil {
+					return
+				}
+				l.pending = append(l.pending, tls13Record(cs.CipherSuite, sec, 0, 22, []byte{24, 0, 0, 1, 1}))
+				injected = true
+				sched.GoNamed("R", false, func() {
+					b := make([]byte, 64)
+					_, err := u.Read(b)
+					hmu.Lock()
+					rdErr = err
+					hmu.Unlock()
+				})
+				sched.GoNamed("W", false, func() {
+					_, err := u.Write(msg)
+					hmu.Lock()
+					wrErr = err
+					hmu.Unlock()
+				})
+			})
+			x.Transitions += out.Steps
+			closeLink(l)
+			l.mu.Lock()
+			for !l.peerDone {
+				l.cond.Wait()
+			}
+			l.mu.Unlock()
+			what := cl.name
+			r.Nontrivial = true
+			if hsErr != nil || !injected {
+				r.Violate("INFRA|c26-keyupdate-setup", "%s: handshake %v, KeyUpdate injected=%v", what, hsErr, injected)
+				return
+			}
+			if out.Deadlock || out.Horizon {
+				r.Violate("C26|HE|deadlock", "%s: %v", what, out.Blocked)
+			}
+			for _, p := range out.Panics {
+				r.Violate("C26|HE|panic|"+errClass(fmt.Errorf("%s", firstLineOf(p))), "%s: %s", what, truncStr(p, 500))
+			}
+			for _, e := range out.InfraErrors {
+				r.Violate("INFRA|sched", "%s", e)
+			}
+			smu.Lock()
+			got, serr := append([]byte(nil), sink...), srvErr
+			smu.Unlock()
+			if wrErr == nil && !out.Deadlock && !bytes.Equal(got, msg) {
+				r.Violate("C26|HE|peer-cannot-read-the-client", "%s: Write returned nil, but the peer received %d of %d bytes and ended with %v: the records the reader and the writer put on the wire do not form a valid stream", what, len(got), len(msg), serr)
+			}
+			r.Count("key_updates_answered", 1)
+			if bytes.Equal(got, msg) {
+				r.Count("key_update_peer_received_everything", 1)
+			}
+			if rdErr != nil && strings.Contains(rdErr.Error(), "bad record MAC") {
+				r.Count("key_update_took_effect_on_the_read_side", 1) // the real server's echo is sealed with the key the forged KeyUpdate retired
+			}
+			r.Obs = fmt.Sprintf("r=%s|w=%s|peer=%d/%s", truncStr(errClass(rdErr), 40), errClass(wrErr), len(got), truncStr(errClass(serr), 40))
 			r.Class = what + "|" + r.Obs
 			return
 		},
